@@ -94,6 +94,28 @@ def run_case(case):
                                  "precision": prec, "levels": levels, "setup": desc})
             if np.ptp(q0) > 0 and np.ptp(F[0]) > 0:
                 sigs.append(f"{case['idx']}|{skind}|{im},{jm}")
+    # the forward run centred on the tower (the way the configuration-driven interface runs it: the measurement point is handed over and
+    # the value is read at the centre of the returned window), for a flux map whose outermost ring of cells is zero
+    if nx % 2 == 0 and ny % 2 == 0 and nx >= 6 and ny >= 6:
+        cand = [p_ for p_ in fps if p_ != (0, 0)]
+        if cand:
+            im, jm = cand[int(rng.integers(len(cand)))]
+            G, F, sG, sF = fps[(im, jm)]
+            qz, skz = gen.make_source(rng, ny, nx)
+            qz = np.array(qz, dtype=float)
+            qz[0, :] = qz[-1, :] = 0.0
+            qz[:, 0] = qz[:, -1] = 0.0
+            _, cc, fc = solve.solve(St, qz, levels, srf_bg_conc=0.0, precision=prec, analytic=analytic, meas_pt=(im * dx, jm * dy))
+            counters["forward_runs_centred_on_the_tower"] = counters.get("forward_runs_centred_on_the_tower", 0) + 1
+            cc, fc = solve.as3d(cc, nl), solve.as3d(fc, nl)
+            sa = float(np.sum(np.abs(qz))) or 1.0
+            for k in range(nl):
+                ef = abs(float(np.sum(qz * F[k])) - float(fc[k, ny // 2, nx // 2])) / (sa * max(float(np.max(np.abs(F[k]))), sF) or 1.0)
+                ec = abs(float(np.sum(qz * G[k])) - float(cc[k, ny // 2, nx // 2])) / (sa * max(float(np.max(np.abs(G[k]))), sG) or 1.0)
+                resid[f"centred_forward_run_{prec}"] = max(resid.get(f"centred_forward_run_{prec}", 0.0), ef, ec)
+                if not (ef <= tol and ec <= tol):
+                    viol.append({"what": "footprint_sum_differs_from_forward_run", "which": "centre value of the forward run centred on the tower", "rel": max(ef, ec), "tol": tol,
+                                 "point_cell": (im, jm), "level": k, "source": skz + " with a zero rim", "precision": prec, "levels": levels, "setup": desc})
     b = {f"halo:{St['halo_class']}": 1, f"modes:{St['mode_class']}": 1, f"prec:{prec}": 1, f"profiles:{St['pdesc'].get('closure', St['pdesc']['kind'])}": 1,
          f"levels:{lkind}": 1, "analytic" if analytic else "numeric": 1, f"parity:{'even' if nx % 2 == 0 and ny % 2 == 0 else 'odd'}": 1, gen.gbucket(St["G"]): 1}
     return {"evals": counters["forward_runs"] * len(pts) * nl, "nontrivial": bool(sigs), "sig": sigs, "buckets": b, "resid": resid,
